@@ -524,3 +524,28 @@ pub fn cmd_detlog(args: &[String]) -> i32 {
     }
     0
 }
+
+/// Generate-vs-replay equivalence: every generated run, replayed from its recorded op list in a
+/// fresh world, must end in the same states and storage (hash of digests, items and state set).
+pub fn cmd_selftest(args: &[String]) -> i32 {
+    let prop = args[0].clone();
+    let base: u64 = arg(args, "--seed").and_then(|s| s.parse().ok()).unwrap_or(DEFAULT_SEED);
+    let from: u64 = arg(args, "--from").and_then(|s| s.parse().ok()).unwrap_or(0);
+    let runs: u64 = arg(args, "--runs").and_then(|s| s.parse().ok()).unwrap_or(100);
+    let mut bad = 0;
+    for k in from..from + runs {
+        let seed = run_seed(base, &prop, k);
+        let a = runner::generate(&prop, seed);
+        let b = runner::replay(&a.cfg, &a.ops);
+        let sa: u64 = a.states.iter().fold(0u64, |x, y| x.rotate_left(5) ^ y);
+        let sb: u64 = b.states.iter().fold(0u64, |x, y| x.rotate_left(5) ^ y);
+        let va = a.violation.as_ref().map(|v| v.class.clone());
+        let vb = b.violation.as_ref().map(|v| v.class.clone());
+        if a.final_digest_hash != b.final_digest_hash || sa != sb || a.steps != b.steps || va != vb || a.inconclusive.is_some() != b.inconclusive.is_some() {
+            bad += 1;
+            println!("MISMATCH run {} seed {}: steps {}/{} final {:x}/{:x} states {:x}/{:x} viol {:?}/{:?} inc {:?}/{:?}", k, seed, a.steps, b.steps, a.final_digest_hash, b.final_digest_hash, sa, sb, va, vb, a.inconclusive, b.inconclusive);
+        }
+    }
+    println!("selftest {} build={} runs={} mismatches={}", prop, crate::seam::FLAVOUR, runs, bad);
+    if bad > 0 { 1 } else { 0 }
+}
